@@ -246,7 +246,7 @@ func c08c(c *Ctx) {
 		}
 	}
 	if !bad {
-		c.add(Result{Instance: f.Name + " mismatch is an error", Verdict: Discharged, Sites: []string{f.Pos(Cond(cmpBlock))}, Detail: "got != exp leads only to error returns", Witnesses: f.WitEdges(match)})
+		c.add(Result{Instance: f.Name + " mismatch is an error", Verdict: Discharged, Sites: []string{f.Pos(Cond(cmpBlock))}, Detail: "got != exp leads only to error returns"})
 	}
 	// the loop: find the for statement containing the comparison
 	var loop *ast.ForStmt
@@ -298,6 +298,14 @@ func c08c(c *Ctx) {
 		c.Bad(f.Name+" every leaf compared", post[0].Pos(), "an iteration can complete without comparing the leaf hash")
 	} else {
 		c.OK(f.Name+" every leaf compared", "every iteration passes the hash comparison before advancing", []string{post[0].Pos()})
+	}
+	// leaving the comparison for the next leaf (or the end of the loop) requires the equality edge
+	if len(post) > 0 {
+		if pt, _ := g.Reach(Point{cmpBlock, len(cmpBlock.Nodes)}, Cut{Edges: match}, atAnySite(post)); pt != nil || len(match) == 0 {
+			c.Bad(f.Name+" next leaf only after equality", post[0].Pos(), "the loop can advance past a leaf whose hash was not found equal to the verified level-0 hash")
+		} else {
+			c.add(Result{Instance: f.Name + " next leaf only after equality", Verdict: Discharged, Sites: []string{post[0].Pos()}, Detail: "from the comparison the loop advances only on the equality edge", Witnesses: f.WitEdges(match)})
+		}
 	}
 	// the bytes parsed are the data tile stored at edgeTiles[-1]; success cannot skip the loop when the tree is non-empty
 	var loopHead *cfg.Block
